@@ -355,12 +355,12 @@ func (sv *Solver) decide(fr *FuncResult) []*OblResult {
 	// conjunctive goals are decided conjunct by conjunct (same hypotheses): much easier for the solvers
 	var split []*Obligation
 	for _, o := range fr.Obls {
-		if o.Canary || !strings.HasPrefix(o.Goal.S, "(and ") {
+		if o.Canary || !(strings.HasPrefix(o.Goal.S, "(and ") || strings.HasPrefix(o.Goal.S, "(=> ")) {
 			split = append(split, o)
 			continue
 		}
 		t := parseSx(o.Goal.S)
-		parts := flattenAnd(t, 2)
+		parts := flattenAnd(t, 8)
 		if len(parts) < 2 || len(parts) > 24 {
 			split = append(split, o)
 			continue
@@ -501,6 +501,18 @@ func balanced(s string) string {
 }
 
 func flattenAnd(n *sx, depth int) []*sx {
+	if n != nil && n.kids != nil && n.head() == "=>" && len(n.kids) == 3 && depth > 0 {
+		// (=> A (and B C)) splits into (=> A B), (=> A C)
+		cs := flattenAnd(n.kids[2], depth)
+		if len(cs) > 1 {
+			var out []*sx
+			for _, c := range cs {
+				out = append(out, &sx{kids: []*sx{{atom: "=>"}, n.kids[1], c}})
+			}
+			return out
+		}
+		return []*sx{n}
+	}
 	if n != nil && n.kids != nil && n.head() == "and" && depth > 0 {
 		var out []*sx
 		for _, k := range n.kids[1:] {
